@@ -85,10 +85,11 @@ type server struct {
 	lines []string
 	w     io.Writer
 	ch    chan struct{}
+	fc    *fakenet.Conn
 }
 
 func serve(fc *fakenet.Conn, cert *tls.Certificate) *server {
-	s := &server{ch: make(chan struct{}, 1024)}
+	s := &server{ch: make(chan struct{}, 1024), fc: fc}
 	var rw io.ReadWriter = fc.ServerSide()
 	if cert != nil {
 		rw = tls.Server(fc.ServerSide(), &tls.Config{Certificates: []tls.Certificate{*cert}})
@@ -322,6 +323,38 @@ func runOne(c Cfg, cert *tls.Certificate, tokens []string, window time.Duration)
 					}
 				}
 				r.Ctcps = append(r.Ctcps, q)
+			}
+			if !c.SSL {
+				// a PING that arrives while the output queue is full (the server has stopped reading for a moment,
+				// a user goroutine keeps sending): the answer is late, not lost
+				before := len(srv.get())
+				srv.fc.SetBudget(0)
+				go func() {
+					defer func() { recover() }()
+					for i := 0; i < 40; i++ {
+						conn.Raw(fmt.Sprintf("PRIVMSG #fill :%d", i))
+					}
+				}()
+				time.Sleep(8 * time.Millisecond)
+				srv.send("PING :under-pressure")
+				time.Sleep(8 * time.Millisecond)
+				srv.fc.SetBudget(-1)
+				srv.waitFor(5*time.Second, func(l []string) bool {
+					n := 0
+					for _, x := range l[before:] {
+						if x == "PONG :under-pressure" || x == "PRIVMSG #fill :39" {
+							n++
+						}
+					}
+					return n >= 2
+				})
+				reply := []string{}
+				for _, x := range srv.get()[before:] {
+					if strings.HasPrefix(x, "PONG ") {
+						reply = append(reply, x)
+					}
+				}
+				r.Pongs = append(r.Pongs, pong{Tok: "under-pressure", Reply: latinAll(reply)})
 			}
 			time.Sleep(window)
 			for _, x := range srv.get() {
